@@ -30,6 +30,13 @@ type wsc struct {
 	closed   bool
 	closeErr error
 	pongs    int
+	hook     func(vclient.Msg) // sees every message before bulky members are dropped
+}
+
+func (c *wsc) setHook(f func(vclient.Msg)) {
+	c.mu.Lock()
+	c.hook = f
+	c.mu.Unlock()
 }
 
 func dialRaw(s *vsrv.Server, name string) (*wsc, error) {
@@ -60,6 +67,16 @@ func (c *wsc) reader() {
 			m = vclient.Msg{"type": "_unparsable"}
 		}
 		t := m.Str("type")
+		c.mu.Lock()
+		hook := c.hook
+		c.mu.Unlock()
+		if hook != nil {
+			cp := vclient.Msg{}
+			for k, v := range m {
+				cp[k] = v
+			}
+			hook(cp)
+		}
 		// keep the log small: bulky members are of no interest to the oracle
 		if t == "chat" || t == "chathistory" || t == "usermessage" && m.Str("kind") != "kicked" {
 			delete(m, "value")
